@@ -62,6 +62,14 @@ Defs == <<
   \* the function re-entered during its own call, a same-named local of the calling level in between
   [name |-> "recursive-shadowed-capture", setup |-> <<EAsg("g", N(10)), EAsg("f", ELam(<<Req("x")>>, EIf(EBin("eq", X, N(0)), G, EDo(<<EAsg("g", N(99))>>, ECall(F, <<EBin("sub", X, N(1))>>)))))>>, call |-> "one"],
   [name |-> "self-passed-shadowed-capture", setup |-> <<EAsg("g", N(10)), EAsg("h", ELam(<<Req("y"), Req("x")>>, EIf(EBin("eq", X, N(0)), G, EDo(<<EAsg("g", N(99))>>, ECall(EId("y"), <<EId("y"), EBin("sub", X, N(1))>>))))), EAsg("f", ELam(<<Req("x")>>, ECall(EId("h"), <<EId("h"), X>>)))>>, call |-> "one"],
+  \* a built-in function captured under an ordinary name is a captured value like any other
+  [name |-> "captures-builtin",      setup |-> <<EAsg("g", EId("max")), EAsg("f", ELam(<<Req("x")>>, ECall(G, <<X, N(3)>>)))>>, call |-> "one"],
+  [name |-> "captures-builtin-as-callback", setup |-> <<EAsg("g", EId("len")), EAsg("f", ELam(<<Req("x")>>, EBin("into", EList(<<X, X>>), G)))>>, call |-> "one"],
+  \* several spreads in one argument list, an empty one among them
+  [name |-> "two-spreads",           setup |-> <<EAsg("g", EList(<<N(7)>>)), EAsg("f", ELam(<<Req("x"), Prm("y", "opt"), Prm("z", "rest")>>, EList(<<X, EId("y"), EId("z"), G>>)))>>, call |-> "spread2"],
+  [name |-> "empty-spread-then-spread", setup |-> <<EAsg("g", EList(<<>>)), EAsg("f", ELam(<<Req("x"), Prm("z", "rest")>>, EList(<<X, EId("z"), G>>)))>>, call |-> "spread0"],
+  [name |-> "spreads-exact-arity",   setup |-> <<EAsg("f", ELam(<<Req("x"), Req("y"), Req("z")>>, EList(<<X, EId("y"), EId("z")>>)))>>, call |-> "spread2"],
+  [name |-> "spreads-too-many",      setup |-> <<EAsg("f", ELam(<<Req("x"), Req("y")>>, X))>>, call |-> "spread2"],
   [name |-> "rest-from-spread",      setup |-> <<EAsg("g", EList(<<N(7), N(8)>>)), EAsg("f", ELam(<<Req("x"), Prm("z", "rest")>>, EList(<<X, EId("z"), ECall(EId("len"), <<G>>)>>)))>>, call |-> "spread"]
 >>
 
@@ -70,6 +78,8 @@ CallOn(fe, how) == CASE how = "one"     -> ECall(fe, <<N(1)>>)
                      [] how = "zero"    -> ECall(fe, <<>>)
                      [] how = "curried" -> ECall(ECall(fe, <<N(1)>>), <<N(2)>>)
                      [] how = "spread"  -> ECall(fe, <<N(1), ESpread(EList(<<N(2), N(3)>>))>>)
+                     [] how = "spread2" -> ECall(fe, <<ESpread(EList(<<N(1)>>)), ESpread(EList(<<N(2), N(3)>>))>>)
+                     [] how = "spread0" -> ECall(fe, <<ESpread(EList(<<>>)), ESpread(EList(<<N(1), N(2)>>)), ESpread(EList(<<>>))>>)
 
 \* ------------------------------------------------------------------ calling contexts
 CtxNames == {"param-k", "record-field", "list-item", "if-branch", "spread-source", "logical-operand", "param-a", "top", "param-g", "param-x", "param-f-arg", "do-local-g", "do-local-h", "do-local-k", "via-callback", "where-callback",
@@ -115,7 +125,9 @@ VARIABLE c
 Init == \/ c \in {[fam |-> "ctx", d |-> d, cn |-> cn, inner |-> ""] : d \in 1..Len(Defs), cn \in CtxNames}
         \/ Deep /\ c \in {[fam |-> "ctx", d |-> d, cn |-> cn, inner |-> i, mid |-> m] : d \in 1..Len(Defs), cn \in CtxNames \ {"passed-as-value", "after-refused-redefinition", "top"}, i \in IdCtx, m \in IdCtx}
         \/ c \in {[fam |-> "ctx", d |-> d, cn |-> cn, inner |-> i] : d \in 1..Len(Defs), cn \in CtxNames \ {"passed-as-value", "after-refused-redefinition", "top"}, i \in IdCtx}
-        \/ c \in {[fam |-> "args", ps |-> ps, n |-> n] : ps \in ParamLists, n \in 0..7}
+        \/ c \in {[fam |-> "args", ps |-> ps, n |-> n, sp |-> -1] : ps \in ParamLists, n \in 0..7}
+        \* the same argument tuples handed over as two adjacent spreads, split at every point (either part may be empty)
+        \/ c \in {[fam |-> "args", ps |-> ps, n |-> n, sp |-> k] : ps \in ParamLists, n \in 0..5, k \in 0..5} /\ c.sp <= c.n
 Next == UNCHANGED c
 Spec == Init /\ [][Next]_c
 
@@ -144,7 +156,8 @@ CallSiteIndependent ==
 
 \* args family: f = (ps) => [params in order]; call with n arguments 1..n
 ArgsBody == EList([i \in 1..Len(c.ps) |-> EId(c.ps[i].n)])
-ArgsCall == ECall(ELam(c.ps, ArgsBody), [i \in 1..c.n |-> N(i)])
+ArgsCall == IF c.sp < 0 THEN ECall(ELam(c.ps, ArgsBody), [i \in 1..c.n |-> N(i)])
+            ELSE ECall(ELam(c.ps, ArgsBody), <<ESpread(EList([i \in 1..c.sp |-> N(i)])), ESpread(EList([i \in 1..(c.n - c.sp) |-> N(c.sp + i)]))>>)
 ArgsRes == Eval(ArgsCall, <<Root>>, 0).v
 ArgsLaw == c.fam = "args" =>
    LET r == NReq(c.ps)  tot == Len(c.ps)  rest == HasRest(c.ps) IN
@@ -159,5 +172,5 @@ Emit == PrintT(<<"CASE", ToJson(
           IF c.fam = "ctx"
           THEN [fam |-> "ctx", def |-> D.name, ctx |-> (IF c.inner = "" THEN c.cn ELSE IF HasMid THEN c.cn \o " > " \o c.mid \o " > " \o c.inner ELSE c.cn \o " > " \o c.inner), setup |-> D.setup, pre |-> K.pre, e |-> K.e, top |-> CallOn(F, D.call),
                 wrap |-> K.wrap, closed |-> (IsFn(Fval) /\ ClosedAfterCapture(Fval)), expTop |-> ProjV(TopRes), expCtx |-> ProjV(CtxRes)]
-          ELSE [fam |-> "args", ps |-> c.ps, n |-> c.n, e |-> ArgsCall, exp |-> ProjV(ArgsRes)])>>)
+          ELSE [fam |-> "args", ps |-> c.ps, n |-> c.n, sp |-> c.sp, e |-> ArgsCall, exp |-> ProjV(ArgsRes)])>>)
 =============================================================================
